@@ -103,6 +103,10 @@ def cases(tier, seed):
                     tol = (1e-10, 1e-12, 1e-6)[g % 3]
                     out.append({"key": f"{base}/gstart={g}", "grp": "herm", "n": n, "lam": lam, "ratio": ratio, "kind": kind, "start": ["fill", g], "tol": tol})
                 out.append({"key": f"{base}/q8starts", "grp": "q8", "n": n, "lam": lam, "ratio": ratio, "kind": kind})
+                if kind in ("id", "hh"):
+                    for e in (-50, 40):  # whole-matrix scaling: every clause is relative to |lambda_max|
+                        out.append({"key": f"{base}/scale=2^{e}", "grp": "herm", "n": n, "lam": [float(np.ldexp(x, e)) for x in lam], "ratio": ratio, "kind": kind,
+                                    "start": ["seed", 1], "tol": 1e-10})
     for n in range(1, 5):
         for st in ("nonherm", "nilpotent", "zero", "rank1", "skew"):
             for sd in range(4):
